@@ -252,6 +252,10 @@ def judge_fault(sb, case, obs, mode):
     snap = sb.save("snap")
     if obs["cls"] == "old" and not stale and case.kind != "new-object" or (obs["cls"] == "old" and not stale and case.kind == "new-object"):
         r = sb.run(case.args)
+        if r.get("timeout"):
+            # a machine under load: once more from the same state with a generous limit before calling it a hang
+            sb.restore(snap)
+            r = sb.run(case.args, timeout=300)
         if r["rc"] != 0 and case.kind == "upgrade" and "greater than or equal" in r["err"]:
             # the staged inventory already carries the new spec version: the pending upgrade is
             # completed by an ordinary commit
@@ -261,6 +265,9 @@ def judge_fault(sb, case, obs, mode):
             fails.append("%s: retrying the commit afterwards %s" % (what, "failed: " + r["err"][-200:] if r["rc"] else "did not produce the new version"))
         sb.restore(snap)
     r = sb.run(["reset", case.oid])
+    if r.get("timeout"):
+        sb.restore(snap)
+        r = sb.run(["reset", case.oid], timeout=300)
     if r["rc"] != 0:
         fails.append("%s: resetting the staged changes afterwards failed: %s" % (what, r["err"][-200:]))
     elif os.path.isdir(obs["staged_dir"]):
@@ -324,7 +331,7 @@ def judge_kill(sb, case, obs):
         if os.path.isdir(locks):
             for f in os.listdir(locks):
                 os.unlink(os.path.join(locks, f))
-        r = sb.run(case.args)
+        r = sb.run(case.args, timeout=300)
         if r["rc"] == 0:
             from vlib import ocflcheck
             oroot = object_root(sb, case.oid)
